@@ -71,6 +71,13 @@ type StepObs struct {
 	WriteFailed bool
 	Panic    string
 	ClockNow time.Time
+	// Fault: the injected transient I/O fault that fired while the client
+	// handled this step ("" = none); FaultShape: the same without its position.
+	// Crash: the client panicked in a step in which a fault had fired; this is
+	// the death of the process at that point: the stores were reopened from
+	// disk and a fresh block manager constructed before Post/PostF were read
+	// (Panic is left empty: it is not a panic of a surviving process).
+	Fault, FaultShape, Crash string
 }
 
 // Session is one seeded L1 execution.
@@ -108,6 +115,22 @@ type Session struct {
 	NoMidProbe bool
 	nObserved  int
 	MidProbes  int
+
+	// Fault layer (fault.go; nil / zero without SessionConfig.Faulty).
+	Ctl         *FaultCtl
+	armed       *FaultSpec
+	FaultsFired int
+	Restarts    int
+	// SigSuffix is appended by the check programs to the signature of every
+	// violation of this session. Empty except in sessions of family iofault from
+	// the step on in which an injected I/O error fired and the client CARRIED ON
+	// (iofault.go): what breaks from then on has that error, at that point, as
+	// its root cause ("/io-fault-survived:<event>:<message or round>:<target>/<operation>").
+	SigSuffix string
+	// LastFaultReached: the most recently armed fault fired, or (a fault
+	// positioned after an event) the event it waits for was seen.
+	LastFaultReached bool
+	faulty      bool
 }
 
 // Config of a session.
@@ -119,6 +142,8 @@ type SessionConfig struct {
 	WithBlocks bool
 	NumPeers   int
 	SpacingSec int64
+	// Faulty: open the stores with the I/O fault layer (fault.go).
+	Faulty bool `json:",omitempty"`
 }
 
 // NewSession builds the generator, stores, block manager and peers.
@@ -131,7 +156,7 @@ func NewSession(c SessionConfig) (*Session, error) {
 	s := &Session{
 		Seed: c.Seed, Rng: rand.New(rand.NewSource(c.Seed ^ 0x5eed)), G: g,
 		Clock: &Clock{t: FixedNow}, Log: netsim.NewLog(),
-		Offered: map[chainhash.Hash]*chaingen.Node{}, name: c.Name,
+		Offered: map[chainhash.Hash]*chaingen.Node{}, name: c.Name, faulty: c.Faulty,
 	}
 	s.View = netsim.NewView(g, g.Genesis)
 	return s, nil
@@ -145,8 +170,23 @@ func (s *Session) Open() error {
 	if err != nil {
 		return err
 	}
+	if s.faulty {
+		// The same directory, opened again with the wrappers in place.
+		st.Close()
+		s.Ctl = newFaultCtl()
+		if st, err = openStoresFaulty(st.Dir, s.G.P, s.Ctl); err != nil {
+			return err
+		}
+	}
 	s.Stores = st
 	s.Net = newScriptNet(s)
+	return s.newBM()
+}
+
+// newBM constructs the block manager on s.Stores (at session start, and again
+// after a crash of the client: Restart).
+func (s *Session) newBM() error {
+	st := s.Stores
 	s.hooked = &hookedBlockStore{BlockHeaderStore: st.Block}
 	bm, err := neutrino.VerifNewBlockManager(&neutrino.VerifBlockManagerConfig{
 		ChainParams:      *s.G.P,
@@ -256,6 +296,12 @@ func (s *Session) runWithEvents(f func()) (evs []EventObs, panicked string) {
 			}
 			done <- ""
 		}()
+		if s.Ctl != nil {
+			// Only what the client does on this goroutine is subject to an
+			// armed I/O fault (fault.go).
+			s.Ctl.enter()
+			defer s.Ctl.leave()
+		}
 		f()
 	}()
 	ch := s.BM.Notifications()
@@ -355,6 +401,9 @@ func (s *Session) SendHeaders(kind string, pi int, batch []*chaingen.Node, extra
 	msg.Headers = hdrs
 	st.Events, st.Panic = s.runWithEvents(func() { s.BM.HandleHeaders(s.Peers[pi].SP, msg) })
 	st.WriteFailed = s.hooked.takeFailed()
+	if err := s.afterHandler(st); err != nil {
+		return st, err
+	}
 	if err := s.endStep(st); err != nil {
 		return st, &StoreErr{err}
 	}
